@@ -4,10 +4,11 @@ X86Model/Driver/Proto.lean). The handler chain tries each property family in tur
 -/
 import X86Model.Driver.Proto
 import X86Model.Driver.Addr
+import X86Model.Driver.Port
 
 open X86 X86.Driver
 
-def allHandlers : List Handler := [handleC05]
+def allHandlers : List Handler := [handleC05, handleC18]
 
 def dispatch : Handler := fun cfg op a impl =>
   allHandlers.firstM (fun h => h cfg op a impl)
